@@ -188,3 +188,39 @@ def has_diagonal(asg) -> bool:
 def broadcast_target(asg) -> bool:
     used = {i for lf in leaves(asg["rhs"]) for i in lf["idx"]}
     return any(i not in used for i in asg["tidx"])
+
+
+def expr_indexes(e) -> set:
+    return {i for lf in leaves(e) for i in lf["idx"]}
+
+
+def in_every_term(e, k) -> bool:
+    if e["k"] in "+-":
+        return in_every_term(e["l"], k) and in_every_term(e["r"], k)
+    if e["k"] == "*":
+        return in_every_term(e["l"], k) or in_every_term(e["r"], k)
+    if e["k"] == "T":
+        return k in e["idx"]
+    return False
+
+
+def _nodes(e):
+    yield e
+    if e["k"] in "+-*":
+        yield from _nodes(e["l"])
+        yield from _nodes(e["r"])
+
+
+def shape_tags(asg) -> list[str]:
+    """Structural tags of an assignment, used to identify known findings precisely."""
+    tags = []
+    contracted = expr_indexes(asg["rhs"]) - set(asg["tidx"])
+    for n in _nodes(asg["rhs"]):
+        if n["k"] == "*":
+            for k in contracted & expr_indexes(n["l"]) & expr_indexes(n["r"]):
+                if not in_every_term(n["l"], k) and not in_every_term(n["r"], k):
+                    tags.append("product-of-partial-sums")
+    for lit in literals(asg["rhs"]):
+        if lit["v"] is None or abs(lit["v"]["n"]) > 32767:
+            tags.append("big-literal")
+    return sorted(set(tags))
